@@ -1,5 +1,6 @@
 import GoCrypt.Props.C02Core
 import GoCrypt.Props.C02b
+import GoCrypt.Props.FlowModel
 
 /-!
 # C02 — a wrong password or a tampered hash never verifies
@@ -65,5 +66,18 @@ namespace GoCrypt.C02
 #print axioms GoCrypt.C02b.argon2_key_eq_core
 #print axioms GoCrypt.C02b.argon2_absorbs
 #print axioms GoCrypt.C02b.argon2_check_absorbs
+
+-- the pipeline model IS the regenerated code (Props/FlowModel.lean): a value semantics of the flow IR, instantiated with the model's own
+-- unmarshal / key / encoders, evaluates the IR regenerated from the current source to exactly Scheme.check, for all inputs
+#print axioms GoCrypt.FlowModel.flowCheck_eq_model_md5
+#print axioms GoCrypt.FlowModel.flowCheck_eq_model_sha256
+#print axioms GoCrypt.FlowModel.flowCheck_eq_model_sha512
+#print axioms GoCrypt.FlowModel.flowCheck_eq_model_sha1
+#print axioms GoCrypt.FlowModel.flowCheck_eq_model_sunmd5
+#print axioms GoCrypt.FlowModel.flowCheck_eq_model_des
+#print axioms GoCrypt.FlowModel.flowCheck_eq_model_desext
+#print axioms GoCrypt.FlowModel.flowCheck_eq_model_bcrypt
+#print axioms GoCrypt.FlowModel.flowCheck_eq_model_nthash
+#print axioms GoCrypt.FlowModel.flowCheck_eq_model_argon2
 
 end GoCrypt.C02
